@@ -223,19 +223,36 @@ def run(ctx, chk):
                 tables.setdefault(name, {})['%s/%s' % (stage, e)] = [o[1], str(o[2]), str(o[3])]
     chk.tables['errors'] = tables
 
-    # ---- M5 syscall origin literals
+    # ---- M5 syscall origin literals: every constant that flows into CStr::from_bytes_with_nul in the shm crate
     lits = []
     for b in fb.bodies(common.SHM):
-        for i, blk in enumerate(b.blocks):
-            for s in blk['stmts']:
-                if s['k'] == 'assign' and s['r']['k'] == 'use' and s['r']['op'].get('k') == 'const' \
-                        and 'str' in s['r']['op'] and mir.is_from_macro(s['span'], names=('syserror',)):
-                    lits.append((b, i, s['r']['op']['str']))
-            t = blk['term']
-            if t['k'] == 'call':
-                for a in t['args']:
-                    if a.get('k') == 'const' and 'str' in a and mir.is_from_macro(blk['tspan'], names=('syserror',)):
-                        lits.append((b, i, a['str']))
+        if not any(fn and mir.callee_name(fn).endswith('CStr::from_bytes_with_nul') for _, _, fn in b.calls()):
+            continue
+        chk.saw(b)
+        eng5 = common.mk_engine(fb, no_inline=lambda x: True)
+        seen5 = set()
+        for p5 in eng5.run(b):
+            for ef in p5.effects:
+                if ef['kind'] == 'call' and ef['callee'].endswith('CStr::from_bytes_with_nul'):
+                    vals = list(ef['args']) + [x for x in (ef.get('pointees') or []) if x is not None]
+                    # the bytes may come through `str::as_bytes` of a string constant
+                    for x in list(vals):
+                        for y in psi.walk(x):
+                            if y[0] == 't' and y[1] == 'call' and isinstance(y[2][1], int) and y[2][1] < len(p5.effects):
+                                e2 = p5.effects[y[2][1]]
+                                vals += list(e2.get('args') or []) + [z for z in (e2.get('pointees') or []) if z is not None]
+                    found = []
+                    for x in vals:
+                        found += common.c_string_literals(x)
+                    key5 = (ef['site'][:2], tuple(found))
+                    if key5 in seen5:
+                        continue
+                    seen5.add(key5)
+                    if found:
+                        lits.append((b, ef['site'][1], found[-1]))
+                    else:
+                        chk.ob('C14.M5', 'origin-not-a-literal:%s' % b.path.split('::')[-1], False, ef['site'][2],
+                               'CStr::from_bytes_with_nul is applied to %s, not to a literal: the unwrap() behind it can panic in a client call' % fmt(ef['args'][0])[:80])
     for b, i, s in lits:
         good = s.endswith('\0') and '\0' not in s[:-1] and all(ord(c) < 128 for c in s)
         chk.ob('C14.M5', 'origin-literal:%s' % s.rstrip('\0'), good, b.where(i),
@@ -322,6 +339,14 @@ def discharge_panicky(fb, b, bb, t, nm):
     """accepted idioms for panicking calls on the now() call paths"""
     if mir.is_from_macro(b.blocks[bb]['tspan'], names=('syserror',)):
         return True, 'unwrap() on CStr::from_bytes_with_nul of a syserror! origin literal; literals are valid C strings (C14.M5)'
+    # unwrap()/expect() applied to the result of CStr::from_bytes_with_nul: every constant reaching that call is checked by M5
+    if nm.split('::')[-1] in ('unwrap', 'expect') and t['args'] and t['args'][0].get('k') in ('copy', 'move') and not t['args'][0]['p']['proj']:
+        l0 = t['args'][0]['p']['l']
+        for blk in b.blocks:
+            tt = blk['term']
+            if tt['k'] == 'call' and tt['dest']['l'] == l0 and not tt['dest']['proj'] and tt['func'].get('fn') and \
+                    mir.callee_name(tt['func']['fn']).endswith('CStr::from_bytes_with_nul'):
+                return True, 'unwrap() on CStr::from_bytes_with_nul of origin literals checked by C14.M5'
     # CStr -> str conversion of a syscall origin literal: literals are checked ASCII by C14.M5
     args = t['args']
     for a in args:
